@@ -4,4 +4,9 @@ go 1.26
 
 require git.sr.ht/~adrian-blx/psa-dhcp v0.0.0
 
+require (
+	github.com/golang/protobuf v1.5.2 // indirect
+	google.golang.org/protobuf v1.26.0 // indirect
+)
+
 replace git.sr.ht/~adrian-blx/psa-dhcp => /repo
